@@ -757,9 +757,14 @@ class Unit:
         >>> unit
         100*m
         """
-        expr = self.expr
-        self.expr = _cancel_mul(expr, self.registry)
-        return self
+        expr = _cancel_mul(self.expr, self.registry)
+        return Unit(
+            expr,
+            base_value=self.base_value,
+            base_offset=self.base_offset,
+            dimensions=self.dimensions,
+            registry=self.registry,
+        )
 
 
 def _unit_from_pickle(expr, base_value, base_offset, dimensions, lut):
